@@ -64,6 +64,16 @@ Theorem c12_postgres_faithful :
 Proof. exact decode_postgres_faithful. Qed.
 Print Assumptions c12_postgres_faithful.
 
+(* "never alters bytes of the caller's buffer": DecodePostgres is the one scanner that WRITES through
+   its input (it assembles the time field by appending onto data[:pos]); the field it builds is a
+   prefix of the input, so every byte it writes already has that value. (For all decoders the harness
+   additionally checks guard bytes around the line on every case; aliasing itself is outside the
+   value-level models.) *)
+Theorem c12_postgres_time_in_place : forall data row,
+  decode_postgres data = Ok row -> exists rest, data = pg_time row ++ SP :: rest.
+Proof. exact decode_postgres_time_in_place. Qed.
+Print Assumptions c12_postgres_time_in_place.
+
 (* unquoted fields without delimiter / quote / newline, the last one untouched by TrimSpace *)
 Theorem c12_csv_faithful : forall trim_space delimiter fields,
   delimiter <> QUOTE -> delimiter <> NL ->
